@@ -74,8 +74,6 @@ def size_class(tags, mode, st, p):
         return c
     form = tags.get("form", "")
     if st[0] == "mn":
-        if st[1] == "IMUL" and "imm" in form:
-            return "C03-imul-imm-size"
         if st[1] in ("INC", "DEC", "NEG", "ADC", "SBB", "MUL", "DIV", "IDIV"):
             return "C03-unimplemented-sized"
     return None
